@@ -165,9 +165,8 @@ func (e *Engine) Summarize(f *ssa.Function) *Summary {
 			// candidate constant bounds: the constants returned somewhere, 0 and 1
 			var consts []int64
 			for _, r := range rets {
-				if l := val(r); l.IsConst() {
-					consts = append(consts, l.C)
-				}
+				// the constant itself, or the additive constant of e.g. 2 + len(p.Payload)
+				consts = append(consts, val(r).C)
 			}
 			bound := func(sel func(ret) bool, lower bool) (int64, bool) {
 				cands := append([]int64{0, 1}, consts...)
